@@ -10,6 +10,7 @@ import copy
 
 
 HUGE = 1 << 24  # beyond this float32 cannot represent every integer
+HUGE64 = 1 << 53  # beyond this float64 cannot represent every integer
 
 
 def gen_instance(rng, *, max_jobs=4, max_machines=4, max_ops=4, flexible=None,
@@ -37,13 +38,15 @@ def gen_instance(rng, *, max_jobs=4, max_machines=4, max_ops=4, flexible=None,
         spec["shape"] = "sparse_machine_ids"
     if huge and rng.random() < huge:
         k = 0
+        # a quarter of them in the 2**53 range (nanosecond-like units): a float64 detour loses integers there
+        base = HUGE64 if rng.random() < 0.25 else HUGE
         for job in spec["jobs"]:
             for op in job:
                 # keep zero durations zero; lift one or two operations per instance into the 2**24 range, +-3
                 if op[1] > 0 and (k == 0 or rng.random() < 0.3):
-                    op[1] = HUGE + rng.randint(-3, 3) + op[1]
+                    op[1] = base + rng.randint(-3, 3) + op[1]
                     k += 1
-        spec["shape"] = "huge_durations"
+        spec["shape"] = "huge_durations" if base == HUGE else "huge64_durations"
     return spec
 
 
@@ -207,7 +210,7 @@ def shrink_candidates(spec):
     # lower durations
     for j, job in enumerate(jobs):
         for p, (ms, d) in enumerate(job):
-            for nd in sorted({1, d // 2, d - 1, d - HUGE if d > HUGE else d - 1}):
+            for nd in sorted({1, d // 2, d - 1, d - HUGE if d > HUGE else d - 1, d - HUGE64 + HUGE if d > HUGE64 else d - 1}):
                 if 0 <= nd < d and not (d > 0 and nd == 0):
                     nj = copy.deepcopy(jobs)
                     nj[j][p][1] = nd
